@@ -181,7 +181,7 @@ FULL = {
              "withPrint": False, "maxNormalOrders": 3},
             {"sessionName": 1, "iterationSteps": 8, "withOrderPlacement": True, "withOrderExecution": True,
              "withPrint": False, "maxNormalOrders": 3, "maxHighFrequencyOrders": 2, "highFrequencySubmitRate": 0.5,
-             "events": ["FShock", "Mistake", "Limit", "Halt"]}],
+             "events": ["Off1", "Off2", "FShock", "Mistake", "Limit", "Halt"]}],
         "fundamentalCorrelations": {"pairwise": [["Spot", "Spot2", 0.6]]}},
     "Spot": {"class": "Market", "tickSize": 0.01, "marketPrice": 300.0, "outstandingShares": 1000,
              "fundamentalVolatility": 0.01, "fundamentalDrift": 0.001},
@@ -205,6 +205,11 @@ FULL = {
                 "orderVolume": 20, "orderTimeLength": 3},
     "Limit": {"class": "PriceLimitRule", "targetMarkets": ["Spot2"], "triggerChangeRate": 0.2},
     "Halt": {"class": "TradingHaltRule", "targetMarkets": ["Spot"], "triggerChangeRate": 0.02, "haltingTimeLength": 2},
+    # two disabled events, listed first
+    "Off1": {"class": "FundamentalPriceShock", "target": "Spot2", "triggerTime": 1, "priceChangeRate": 0.5,
+             "shockTimeLength": 1, "enabled": False},
+    "Off2": {"class": "OrderMistakeShock", "target": "Spot", "triggerTime": 1, "priceChangeRate": 0.5,
+             "orderVolume": 5, "orderTimeLength": 2, "enabled": False},
 }
 
 SMALL = {
@@ -215,7 +220,8 @@ SMALL = {
     "Nudge": {"class": "StepEndNudge"},
     "A": {"class": "Market", "tickSize": 1, "marketPrice": 100.0},
     "B": {"class": "Market", "tickSize": 1, "marketPrice": 200.0, "fundamentalVolatility": 0.02},
-    "T": {"class": "TestAgent", "numAgents": 5, "markets": ["B", "A"], "assetVolume": [1, 100], "cashAmount": 1000},
+    "T": {"class": "TestAgent", "numAgents": 5, "markets": ["B", "A"], "assetVolume": [100, 1],      # bounds given descending
+          "cashAmount": {"uniform": [2000, 1000]}},
     "S": {"class": "MarketShareFCNAgent", "numAgents": 4, "markets": ["A", "B"], "assetVolume": [1, 100],
           "cashAmount": 1000, "fundamentalWeight": 1.0, "chartWeight": 0.5, "noiseWeight": 1.0, "noiseScale": 0.05,
           "timeWindowSize": 3, "orderMargin": 0.05},
